@@ -101,6 +101,8 @@ class Fmt:
             v2 = self.validate(data, False, tbl)
             if v2[0] == "ok":
                 lenient, v = True, v2
+            elif v2[0] == "bad" and v2[1:] != v[1:]:
+                v = ("bad", "%s (lenient run-length reading: %s)" % (v[1], v2[1]))
         out = {"verdict": v[0], "why": v[1] if len(v) > 1 else None, "lenient": lenient}
         if v[0] == "ok":
             d = self.decode(data, not lenient, tbl)
